@@ -55,7 +55,7 @@ func TestVerif_C28(t *testing.T) {
 	defer func() { f.stop() }()
 	w := verifgen.NewWallet(f.net.Label, rng, &f.net.Custodian, 4)
 	assets := verifgen.Assets()
-	days := r.N(5, 20)
+	days := r.N(5, 60)
 
 	type rec struct {
 		snap *common.Snapshot
@@ -331,7 +331,7 @@ func TestVerif_C28(t *testing.T) {
 			}
 		}
 	}
-	cycles := r.N(1, 4)
+	cycles := r.N(1, 12)
 	for c := 0; c < cycles; c++ {
 		pool := ordinary(3 + rng.Intn(3))
 		if mc, mtx, mts, err := f.buildMint(w); err != nil {
